@@ -342,6 +342,44 @@ func runC18(c *Ctx) {
 				}
 			}
 		}
+		if !okMin && len(gets) == 1 {
+			// builtin form: m = min(m, row value) with m = φ(255, that min)
+			g := gets[0].(*ssa.Call)
+			eachInstr(est, func(in ssa.Instruction) {
+				cl, ok := in.(*ssa.Call)
+				if !ok || calleeName(&cl.Call) != "min" || len(cl.Call.Args) != 2 {
+					return
+				}
+				var ph *ssa.Phi
+				hasRow := false
+				for _, a := range cl.Call.Args {
+					if p2, isPhi := a.(*ssa.Phi); isPhi {
+						ph = p2
+					}
+					if a == ssa.Value(g) {
+						hasRow = true
+					}
+				}
+				if ph == nil || !hasRow {
+					return
+				}
+				init, upd := false, true
+				for _, e := range phiLeaves(ph) {
+					switch {
+					case isConst(e, "255"):
+						init = true
+					case e == ssa.Value(cl):
+					default:
+						upd = false
+					}
+				}
+				for _, r := range returnsOf(est) {
+					if strings.Contains(te.T(returnValues(r)[0]).String(), te.T(ph).String()) {
+						okMin = init && upd
+					}
+				}
+			})
+		}
 		L.Check(okMin, "R-C18-INDEX", "cmSketch.Estimate#min", "estimate = minimum over the rows (strict <, from 255)", "Estimate is not the running minimum (φ(255, itself, row value) with <) over the rows", est.Pos())
 	})
 
